@@ -16,7 +16,7 @@ func init() { families["c16"] = runC16 }
 
 // Case: a sequence of letters  A B (Refresh valid sync / async config)  E (Refresh invalid, early failure)  L (Refresh invalid, late failure)
 //
-//	D (Destroy)  g (log via tag)  w (write via handle)  t (register a tag)  h (obtain a handle)
+//	W (Refresh valid, the tag's logger restricted to WARN and above)  D (Destroy)  g / G (log via tag below WARN / at WARN and above)  w (write via handle)  t (register a tag)  h (obtain a handle)
 //
 // Observation: one token per operation: ok | err | A | B | console | nowhere | registered | refused | panic(...) | timeout
 // The run starts in the state "never refreshed" only for the first case of a process; every case ends with Destroy.
@@ -31,6 +31,9 @@ func runC16(cases []string, out *bufio.Writer, _ []string) {
 			"logger.h2.type": "AsyncLogger", "logger.h2.tags": "_c16x_*", "logger.h2.appenderRef.ref": "sinkA"},
 		'B': {"appender.sinkB.type": "Rec", "logger.h1.type": "AsyncLogger", "logger.h1.tags": "_c16_*", "logger.h1.appenderRef.ref": "sinkB",
 			"logger.h1.bufferFullPolicy": "Block", "logger.h2.type": "Logger", "logger.h2.tags": "_c16x_*", "logger.h2.appenderRef.ref": "sinkB"},
+		// like A, but the logger serving the tag takes WARN and above only
+		'W': {"appender.sinkW.type": "Rec", "logger.h1.type": "Logger", "logger.h1.tags": "_c16_*", "logger.h1.appenderRef.ref": "sinkW", "logger.h1.level": "warn",
+			"logger.h2.type": "AsyncLogger", "logger.h2.tags": "_c16x_*", "logger.h2.appenderRef.ref": "sinkW"},
 		'E': {"logger.h1.type": "Logger"}, // no appenders section: fails before the once-guard
 		'L': {"appender.sinkL.type": "Rec", "appender.fileL.type": "File", "appender.fileL.fileDir": os.TempDir(), "appender.fileL.fileName": "verif-c16-late.log",
 			"logger.other.type": "AsyncLogger", "logger.other.tags": "_c16_*", "logger.other.appenderRef.ref": "sinkL",
@@ -62,7 +65,9 @@ func runC16(cases []string, out *bufio.Writer, _ []string) {
 		}
 	}
 	n := 0
+	var live byte // the configuration letter of the last successful Refresh, 0 when none is live
 	for _, line := range cases {
+		live = 0
 		if poisoned {
 			fmt.Fprintln(out, "#abandoned-after-timeout")
 			continue
@@ -71,7 +76,7 @@ func runC16(cases []string, out *bufio.Writer, _ []string) {
 		for i := 0; i < len(line); i++ {
 			op := line[i]
 			switch op {
-			case 'A', 'B', 'E', 'L', 'P', 'M':
+			case 'A', 'B', 'W', 'E', 'L', 'P', 'M':
 				var err error
 				if r := watch(func() { err = log.Refresh(cfgs[op]) }); r != "" {
 					obs = append(obs, r)
@@ -79,6 +84,7 @@ func runC16(cases []string, out *bufio.Writer, _ []string) {
 					obs = append(obs, "err")
 				} else {
 					obs = append(obs, "ok")
+					live = op
 				}
 			case 'D':
 				if r := watch(func() { log.Destroy() }); r != "" {
@@ -86,26 +92,30 @@ func runC16(cases []string, out *bufio.Writer, _ []string) {
 				} else {
 					obs = append(obs, "ok")
 				}
-			case 'g', 'w', 'v', 'r':
+				live = 0
+			case 'g', 'G', 'w', 'v', 'r':
 				n++
 				id := fmt.Sprintf("<c16-%d>", n)
 				recReset()
 				stdout := &syncBuffer{}
 				log.Stdout = stdout
 				r := watch(func() {
-					if op == 'g' { // every level entry point in turn
-						switch n % 7 {
+					if op == 'g' { // the entry points below WARN in turn
+						switch n % 3 {
+						case 0:
+							log.Info(ctx, tag, log.Msg(id))
+						case 1:
+							log.Trace(ctx, tag, func() []log.Field { return []log.Field{log.Msg(id)} })
+						default:
+							log.Debugf(ctx, tag, "%s", id)
+						}
+					} else if op == 'G' { // the entry points at WARN and above in turn
+						switch n % 4 {
 						case 0:
 							log.Errorf(ctx, tag, "%s", id)
 						case 1:
-							log.Info(ctx, tag, log.Msg(id))
-						case 2:
 							log.Warnf(ctx, tag, "%s", id)
-						case 3:
-							log.Trace(ctx, tag, func() []log.Field { return []log.Field{log.Msg(id)} })
-						case 4:
-							log.Debugf(ctx, tag, "%s", id)
-						case 5:
+						case 2:
 							log.Panic(ctx, tag, log.Msg(id))
 						default:
 							log.Fatalf(ctx, tag, "%s", id)
@@ -124,9 +134,13 @@ func runC16(cases []string, out *bufio.Writer, _ []string) {
 					continue
 				}
 				where := "nowhere"
-				for k := 0; k < 400 && where == "nowhere"; k++ { // an async logger delivers a little later
+				polls := 400
+				if live == 'W' && (op == 'g' || op == 'G') { // served by a synchronous logger: what is not there now will not come
+					polls = 1
+				}
+				for k := 0; k < polls && where == "nowhere"; k++ { // an async logger delivers a little later
 					snap := recSnapshot()
-					for _, nm := range []string{"sinkA", "sinkB", "sinkL"} {
+					for _, nm := range []string{"sinkA", "sinkB", "sinkL", "sinkW"} {
 						for _, it := range snap[nm] {
 							if bytes.Contains(it.Data, []byte(id)) {
 								where = strings.TrimPrefix(nm, "sink")
